@@ -446,6 +446,11 @@ def gen_case(rng, size=None, features=None):
             ops.append(("w", t, 100 + rng.randint(0, 5)))
             ops.append(("ifc", list(tgts), False))
             ops.append(("r", t))
+            if rng.random() < 0.6:
+                # what do the queries say about a target whose hand-made replacement is gone again?
+                ops.append(("ood",))
+                ops.append(("targets",))
+                ops.append(("sources",))
             ops.append(("ifc", list(tgts), False))
         elif r < 0.80:
             t = rng.choice(tgts)
